@@ -41,6 +41,11 @@ def step (t : List String) : Option String :=
       if ¬ (BaseTy.long.app).inRange x then pure "badinput" else
       let r := match toSandbox abiA .long x with | some g => toString g | none => "abort"
       pure s!"ok tainted={r} opaque={r}"
+  | ["cbopqd", a, r] => do
+      -- opaque floating-point values through a callback are the same values (no conversion, no register mix-up)
+      let a ← parseInt? a; let r ← parseInt? r
+      pure s!"ok seen={a} ret={r} seenf={a} retf={r}"
+  | ["rcastfn", _w, _name] => pure "ok same=1"      -- a reinterpret cast never changes the designated address
   | ["cbopq", v] => do
       let x ← parseInt? v
       if ¬ (BaseTy.long.app).inRange x then pure "badinput" else
